@@ -12,6 +12,14 @@ REPLAYS = os.path.join(VERIF, "replays")
 DEFAULT_SEED = 20260924
 
 ENV = dict(os.environ)
+# engines that call SharedBuilder::with_temp_db() leave their databases under $TMPDIR (the
+# TempDir is a static that is never dropped): give every check its own scratch TMPDIR and
+# remove it when the check ends
+SCRATCH_TMP = f"/tmp/verif-scratch-{os.getpid()}"
+os.makedirs(SCRATCH_TMP, exist_ok=True)
+ENV["TMPDIR"] = SCRATCH_TMP
+import atexit
+atexit.register(lambda: shutil.rmtree(SCRATCH_TMP, ignore_errors=True))
 ENV["CARGO_NET_OFFLINE"] = "true"
 ENV.setdefault("RUST_BACKTRACE", "0")
 ENV["RUST_LOG"] = "off"
